@@ -149,6 +149,14 @@ func genScenario(t *rapid.T) *modsim.Scenario {
 		dis := modsim.Subset(t, sc.Modules, "disable")
 		if len(dis) > 0 {
 			sc.Steps = append(sc.Steps, modsim.Step{Op: "disable", Mods: dis}, modsim.Step{Op: "manage"}, modsim.Step{Op: "poststop", Mods: all})
+			if rapid.Bool().Draw(t, "restart") {
+				// the stopped modules are started again and get their work again: their second stop (by Shutdown or by a
+				// further pass) has to wait for it like the first
+				sc.Steps = append(sc.Steps, modsim.Step{Op: "enable", Mods: dis}, modsim.Step{Op: "manage"}, modsim.Step{Op: "relaunch", Mods: dis})
+				if rapid.Bool().Draw(t, "stopagain") {
+					sc.Steps = append(sc.Steps, modsim.Step{Op: "disable", Mods: dis}, modsim.Step{Op: "manage"})
+				}
+			}
 		}
 	} else {
 		sc.Steps = append(sc.Steps, modsim.Step{Op: "launch", Mods: all})
@@ -156,7 +164,7 @@ func genScenario(t *rapid.T) *modsim.Scenario {
 	if rapid.Bool().Draw(t, "settle") {
 		sc.Steps = append(sc.Steps, modsim.Step{Op: "sleep", US: rapid.SampledFrom([]int{1, 500, 4000}).Draw(t, "settleus")})
 	}
-	sc.Steps = append(sc.Steps, modsim.Step{Op: "shutdown"}, modsim.Step{Op: "poststop", Mods: all})
+	sc.Steps = append(sc.Steps, modsim.Step{Op: "shutdown", US: rapid.SampledFrom([]int{0, 0, 0, 1, 2}).Draw(t, "shutdowncallers")}, modsim.Step{Op: "poststop", Mods: all})
 	// perturbation at the guarded yield points
 	nd := rapid.IntRange(0, 3).Draw(t, "ndelays")
 	for i := 0; i < nd; i++ {
